@@ -208,9 +208,23 @@ KANI_HARNESSES = [
     ("mask_top_word_bits", "bounded", "value::mask_top_word", "words.len()<=3 (all contents, all u32 widths); the Verus job proves it for every length"),
     ("as_i64_contract", "bounded", "Value::as_i64", "words.len()<=2 (all contents, all u32 widths; the function reads only words.first())"),
     ("unknown_at_contract", "bounded", "Value::unknown_at", "words.len()<=3 (all contents, all u32 bit indices)"),
-    ("from_u64_contract", "bounded", "Value::from_u64", "widths {0,1,7,63,64,65,100,127,128,129,191,192} (concrete), all contents"),
-    ("from_bits_contract", "bounded", "Value::from_bits", "widths {0,1,7,63,64,65,100,127,128,129,191,192} (concrete), all contents; source lengths (0,0),(1,1),(2,2),(3,3),(1,2),(3,1)"),
-    ("to_port_contract", "bounded", "Value::to_port_words / Value::to_port_mask_xz", "widths {0,1,7,63,64,65,100,127,128,129,191,192} (concrete), all contents; words.len()<=3"),
+    ("from_u64_w0", "bounded", "Value::from_u64", "width == 0 (concrete), all v"),
+    ("from_u64_w1", "bounded", "Value::from_u64", "width == 1 (concrete), all v"),
+    ("from_u64_w63", "bounded", "Value::from_u64", "width == 63 (concrete), all v"),
+    ("from_u64_w64", "bounded", "Value::from_u64", "width == 64 (concrete), all v"),
+    ("from_u64_w65", "bounded", "Value::from_u64", "width == 65 (concrete), all v"),
+    ("from_u64_w128", "bounded", "Value::from_u64", "width == 128 (concrete), all v"),
+    ("from_bits_2_2_w1", "bounded", "Value::from_bits", "width == 1 (concrete), 2 payload / 2 mask words, all contents"),
+    ("from_bits_2_2_w64", "bounded", "Value::from_bits", "width == 64 (concrete), 2 payload / 2 mask words, all contents"),
+    ("from_bits_2_2_w100", "bounded", "Value::from_bits", "width == 100 (concrete), 2 payload / 2 mask words, all contents"),
+    ("from_bits_2_2_w128", "bounded", "Value::from_bits", "width == 128 (concrete), 2 payload / 2 mask words, all contents"),
+    ("from_bits_1_2_w65", "bounded", "Value::from_bits", "width == 65 (concrete), 1 payload / 2 mask words, all contents"),
+    ("to_port_2_w1", "bounded", "Value::to_port_words / Value::to_port_mask_xz", "port width == 1 (concrete), 2 source words, all contents"),
+    ("to_port_2_w64", "bounded", "Value::to_port_words / Value::to_port_mask_xz", "port width == 64 (concrete), 2 source words, all contents"),
+    ("to_port_2_w100", "bounded", "Value::to_port_words / Value::to_port_mask_xz", "port width == 100 (concrete), 2 source words, all contents"),
+    ("to_port_2_w128", "bounded", "Value::to_port_words / Value::to_port_mask_xz", "port width == 128 (concrete), 2 source words, all contents"),
+    ("to_port_1_w100", "bounded", "Value::to_port_words / Value::to_port_mask_xz", "port width == 100 (concrete), 1 source words, all contents"),
+    ("to_port_non_bits", "proof", "Value::to_port_words / Value::to_port_mask_xz", None),
     ("canary_mask_top_word", "canary", "value::mask_top_word", None),
     ("canary_from_u64", "canary", "Value::from_u64", None),
 ]
